@@ -93,6 +93,7 @@ def primitives(ctx, obs):
     def drive(arr):
         for size in range(4):
             obs.call('blur_mask', masking.blur_mask, arr, size=size)
+        obs.call('blur_mask (documented default size 1)', masking.blur_mask, arr)
         for pad in ([False, False], [False, True], [True, False], [True, True]):
             obs.call('smear_mask', masking.smear_mask, arr, pad)
         obs.call('c_mask_from_centres', arakawa_c.c_mask_from_centres, arr, dims, None)
